@@ -70,7 +70,7 @@ pub fn alphabet(nfail: usize, rich: bool) -> Vec<Act> {
 
 pub fn slices(tier: Tier) -> Vec<Slice> {
     let nfail = tier.pick(10, 17);
-    let l = tier.pick(2, 3);
+    let l = tier.pick(3, 4);
     let mut v = vec![
         Slice {
             name: "C13/vec-queue".into(),
@@ -85,14 +85,13 @@ pub fn slices(tier: Tier) -> Vec<Slice> {
             max_queue: 0,
         },
     ];
-    if tier == Tier::Thorough {
-        v.push(Slice {
-            name: "C13/arrayvec3-queue".into(),
-            q: QKind::A3,
-            alphabet: alphabet(7, false),
-            max_queue: 0,
-        });
-    }
+    // a fixed queue of three: the smallest in which read order beyond the first item is observable
+    v.push(Slice {
+        name: "C13/arrayvec3-queue".into(),
+        q: QKind::A3,
+        alphabet: alphabet(tier.pick(4, 7), false),
+        max_queue: 0,
+    });
     v
 }
 
@@ -159,7 +158,7 @@ pub fn run(ctx: &'static Ctx) -> i32 {
             "the error a malformed message must raise is fixed by the alphabet table (e.g. `U8 256` -> -222), per SCPI-99 21.8".into(),
         ],
         vec![
-            ("bounds", json!({"error_kinds": nfail, "queue_bound_vec": ctx.tier.pick(2, 3)})),
+            ("bounds", json!({"error_kinds": nfail, "queue_bound_vec": ctx.tier.pick(3, 4)})),
             ("deep_trace_steps", json!(deep_steps)),
             ("deep_traces", json!("three deterministic long histories replayed in lock-step outside the BFS bound: 300 failures with COUNt? at 10/100/255/256/257/300 unread items followed by reads; 40 rounds of interleaved failures, *OPC, COUNt?, NEXT?, ALL?, *ESR?; handler-raised errors at class boundaries (-294, -299, -199, -1)")),
         ],
